@@ -29,6 +29,27 @@ CHECKS = {
  "C08": dict(cat="exploration", engine="startsim", ref="5/C08",
    text="Seeded populations with qualifier / Primary / naming attributes; holders with 1-4 mixed points (optional points without candidate placed before others, func- and wire-tagged points whose relative order depends on the schedule). Qualifier soundness on every run, unique-Primary / unique-unnamed ranking on successful runs, per field.",
    note="several competing Primary components are treated as don't-care", technique=STARTSIM + "; oracle: resolver reference model per field"),
+ "C03": dict(cat="exploration", engine="startsim", ref="5/C03",
+   text="Seeded cyclic and acyclic programs plus a wrap plan (who is substituted, at which callback: early reference / before init / after init / before instantiation; consistently or with different substitutes; 1-2 substituting processors of all order classes) x K schedules (who asks first). If Run succeeded, every holder - including those that were handed an early reference - and the by-name lookup hold the one published version. Failure is always admissible.",
+   note="that consistent substitution must succeed is not asserted", technique=STARTSIM + "; fault kind: component substitution by post-processors; oracle: pointer identity per component"),
+ "C04": dict(cat="fault_enumeration", engine="startsim+regsim", ref="5/C04",
+   text="Three sources of histories checked call by call against a small reference state machine of the three-level cache: (1) regsim drives the real registry directly with generated creation trees and enumerates every failure position of every tree, then continues with lookups, direct get-or-creates and re-creates; (2) a tracer on every real start, fault-free and with every discovered callback site failing (transient and permanent), (3) GetComponentByName for every component on the same App after each failed start (black box). Complete per explored tree / start; trees and programs are sampled by seed.",
+   note="the tracer is a pass-through decorator installed through hook H1", technique="deterministic simulation with fault injection: enumerated creation failures on generated creation trees (regsim) and on real starts (startsim); oracle: executable reference state machine of the singleton cache"),
+ "C05": dict(cat="exploration", engine="startsim", ref="5/C05",
+   text="Seeded DAGs / diamonds / cycles with tails, lazy-eager mixes and 1-4 observing post-processors of all classes, under K schedules. Event-log checker: before* < AfterPropertiesSet < Init < after*, each at most once on any run and exactly once on successful ones; wiring and configuration snapshot at the first before-init callback equals the final population; when Init(c) runs every dependency that does not depend back on c has finished; lazy components have a lifecycle iff a created component holds or names them.",
+   note="dependencies-first is judged on the observed wiring graph; substituting programs are exempt", technique=STARTSIM + "; oracle: event-log lifecycle checker"),
+ "C09": dict(cat="fault_enumeration", engine="startsim", ref="5/C09",
+   text="Per generated program and explored schedule every callback site discovered by the fault-free run (Init, AfterPropertiesSet, every post-processor callback for every component including the container's own) is made to fail singly - exhaustive per (program, schedule) - plus sampled pairs; unsatisfiable required / optional points are judged by the start-outcome model. Oracle: Run returns an error, no panic, terminates, no runner invoked; optional-only shortfalls never fail and leave the field empty.",
+   note="a fault counts only if it fired in that run", technique=STARTSIM + " + exhaustive single-fault injection at discovered callback sites; oracle: clean-failure checker + start-outcome model"),
+ "C12": dict(cat="exploration", engine="startsim", ref="5/C12",
+   text="Seeded programs with post-processors, runners (and simulated loaders) of all three order classes, Order values with ties / negatives / extremes; the arrival order at the (unstable) sorter is permuted by the schedule. Observed callback sequences must be a contract order (priority-ordered < ordered < unordered, Order non-decreasing in the first two groups), every participant exactly once.",
+   note="order among equal Order values / unordered participants is not asserted", technique=STARTSIM + "; oracle: ordering-contract checker on observed callback sequences"),
+ "C13": dict(cat="fault_enumeration", engine="startsim", ref="5/C13",
+   text="Seeded programs with 0-6 runners (lazy ones included) under K schedules; on the first three schedules every runner in turn fails (exhaustive per explored schedule). Oracle: every runner exactly once on success, nothing is initialised after the first runner started, contract order, a failing runner makes Run fail and no later runner is invoked.",
+   note="", technique=STARTSIM + " + exhaustive runner-failure injection; oracle: event-log checker"),
+ "C14": dict(cat="exploration", engine="closesim", ref="5/C14",
+   text="After a successful Run with 0-12 closers App.Close runs inside the bubble. Hook H3 parks every goroutine App.Close starts before it invokes its closer; slow closers park again inside Close(), fast ones return at once; a seed-chosen subset fails. The scheduler releases one task at a time in a seeded order. Invariants at every quiescent point: all closer goroutines exist before anything is released, a released closer is always invoked whatever the others did, Close has not returned while any closer is pending; at the end every closer ran exactly once and Close returned (bounded liveness, no wall clock).",
+   note="synctest quiescence detection trusted", technique="deterministic simulation (closesim): App.Close in a testing/synctest bubble, closers parked at start and inside Close, seeded release order and failing subset; invariants at every quiescent point"),
  "C10": dict(cat="exploration", engine="startsim", ref="5/C10",
    text="Metamorphic sweep: each generated program is started under K schedules (canonical, reversed, random: registration permutation x three enumeration orders x scan interleaving). Same success/failure for programs without tied points, same target on every non-tied point, agreement with the start-outcome model where it has a verdict.",
    note="error texts are never compared; with substitution only cross-run stability is demanded", technique=STARTSIM + "; oracle: cross-schedule comparison (metamorphic)"),
@@ -40,14 +61,7 @@ NA = [
  ("C19", "pure parsing function of one string (DESIGN.md section 6)"),
 ]
 PENDING = {
- "C03": "check under construction in this session (startsim, subst family)",
- "C04": "check under construction in this session (regsim + tracer)",
- "C05": "check under construction in this session (startsim, lifecycle checker)",
- "C09": "check under construction in this session (fault enumeration)",
  "C11": "check under construction in this session (twins + frame)",
- "C12": "check under construction in this session (ordering contract)",
- "C13": "check under construction in this session (runners)",
- "C14": "check under construction in this session (closesim)",
  "C15": "check under construction in this session (config merge model)",
  "C18": "check under construction in this session (config menu evaluator)",
  "C20": "check under construction in this session (racesim + linsim)",
@@ -83,8 +97,10 @@ def main():
             "add_only": True,
         },
         "engines": [
-            {"name": "startsim", "path": "/verif/sim/engine", "serves_properties": sorted(p for p in CHECKS if CHECKS[p]["engine"] == "startsim"),
-             "kind_free_text": "whole container life inside a testing/synctest bubble; seeded Chooser decides every enumeration order, registration order and which parked goroutine runs; generated Go programs"},
+            {"name": "startsim", "path": "/verif/sim/engine", "serves_properties": sorted(p for p in CHECKS if "startsim" in CHECKS[p]["engine"] or CHECKS[p]["engine"] == "closesim"),
+             "kind_free_text": "whole container life inside a testing/synctest bubble; seeded Chooser decides every enumeration order, registration order and which parked goroutine runs; generated Go programs; closesim is its Close phase"},
+            {"name": "regsim", "path": "/verif/sim/engine/regsim.go", "serves_properties": ["C04"],
+             "kind_free_text": "generated creation trees driven directly against the real singleton cache, every failure position enumerated"},
         ],
         "checks": checks,
         "not_applicable": na,
